@@ -94,85 +94,48 @@ func ruleFilterOps(r *Report) {
 			h.Check(len(clears) == 0, name+"/missing", r.P.Pos(fn.Pos()), "missing column ignored", "a missing column empties the selection")
 		}
 		if name == "(*column.Txn).Union" && closure != nil {
-			// And on the true edge of `first`, Or on the false edge; first := !setup; first = false after every column
-			firstLeaf := func(c ssa.Value) (bool, bool) {
-				if ld, ok := c.(*ssa.UnOp); ok && ld.Op == token.MUL {
-					if fv, ok := ld.X.(*ssa.FreeVar); ok && fv.Name() == "first" {
-						return true, true
-					}
-				}
-				return false, false
-			}
-			notFirst := func(c ssa.Value) (bool, bool) { a, _ := firstLeaf(c); return a, false }
-			ok := true
-			for _, o := range callsWhere(closure, func(_ ssa.Instruction, c2 *ssa.CallCommon) bool {
-				return methodOn(c2, "github.com/kelindar/bitmap", "Bitmap", "And", "Or")
-			}) {
-				oc, _, _ := callCommon(o)
-				if baseName(oc.StaticCallee()) == "And" && !edgeGuarded(o.Block(), firstLeaf) {
-					ok = false
-				}
-				if baseName(oc.StaticCallee()) == "Or" && !edgeGuarded(o.Block(), notFirst) {
-					ok = false
-				}
-			}
-			// first := !txn.setup evaluated before initialize(); reset to false in the loop
-			initOK, resetOK := false, false
-			allInstrs(fn, func(ins ssa.Instruction) {
-				st, isSt := ins.(*ssa.Store)
-				if !isSt {
-					return
-				}
-				al, isAl := st.Addr.(*ssa.Alloc)
-				if !isAl || al.Comment != "first" {
-					return
-				}
-				if inner, isN := isNot(st.Val); isN {
-					if fr, isF := loadedField(inner); isF && fr.Field == "setup" {
-						inits := callsTo(fn, false, "(*column.Txn).initialize")
-						if len(inits) == 1 && precedes(ins, inits[0]) {
-							initOK = true
-						}
-					}
-				}
-				if c, isC := st.Val.(*ssa.Const); isC && c.Value != nil && c.Value.String() == "false" && reachAvoiding(ins.Block(), ins.Block(), nil, nil) {
-					resetOK = true
-				}
-			})
-			h.Check(ok && initOK && resetOK, name+"/first", r.P.Pos(fn.Pos()), "And only for the first column of a fresh selection", "Union does not intersect exactly for the first column of a fresh selection and join otherwise")
+			h.Check(unionFirstOK(fn, closure), name+"/first", r.P.Pos(fn.Pos()), "And only for the first column of a fresh selection", "Union does not intersect exactly for the first column of a fresh selection and join otherwise")
 		}
 	}
 	// WithUnion
 	if fn := r.Anchor("(*column.Txn).WithUnion"); fn != nil {
 		var orOK, andOK, zeroed bool
-		var orIns, andIns ssa.Instruction
-		allInstrs(fn, func(ins ssa.Instruction) {
-			cc, _, _ := callCommon(ins)
-			if cc == nil {
-				if st, ok := ins.(*ssa.Store); ok {
-					if ia, ok := st.Addr.(*ssa.IndexAddr); ok && isBitmap(ia.X.Type()) {
-						if c, ok := constInt(st.Val); ok && c == 0 && reachAvoiding(ins.Block(), ins.Block(), nil, nil) {
-							zeroed = true
+		var orIns, andIns, zeroIns ssa.Instruction
+		var scratch ssa.Value
+		for _, f := range deepFuncs(fn) {
+			allInstrs(f, func(ins ssa.Instruction) {
+				cc, _, _ := callCommon(ins)
+				if cc == nil {
+					if st, ok := ins.(*ssa.Store); ok {
+						if ia, ok := st.Addr.(*ssa.IndexAddr); ok && isBitmap(ia.X.Type()) {
+							if c, ok := constInt(st.Val); ok && c == 0 && reachAvoiding(ins.Block(), ins.Block(), nil, nil) {
+								zeroed, zeroIns = true, ins
+							}
+						}
+					}
+					return
+				}
+				if methodOn(cc, "github.com/kelindar/bitmap", "Bitmap", "Or") {
+					// tmp |= col.Index(chunk)
+					if c, ok := norm(cc.Args[1]).(*ssa.Call); ok && calleeIs(&c.Call, "(*column.column).Index") {
+						orOK, orIns = true, ins
+						scratch = bitmapRecv(cc.Args[0])
+					}
+				}
+				if methodOn(cc, "github.com/kelindar/bitmap", "Bitmap", "And") {
+					if c, ok := norm(bitmapRecv(cc.Args[0])).(*ssa.Call); ok && calleeIs(&c.Call, "(commit.Chunk).OfBitmap") {
+						if fr, ok := loadedField(c.Call.Args[1]); ok && fr.Struct == "column.Txn" && fr.Field == "index" {
+							andOK, andIns = true, ins
 						}
 					}
 				}
-				return
-			}
-			if methodOn(cc, "github.com/kelindar/bitmap", "Bitmap", "Or") {
-				// tmp |= col.Index(chunk)
-				if c, ok := cc.Args[1].(*ssa.Call); ok && calleeIs(&c.Call, "(*column.column).Index") {
-					orOK, orIns = true, ins
-				}
-			}
-			if methodOn(cc, "github.com/kelindar/bitmap", "Bitmap", "And") {
-				if c, ok := bitmapRecv(cc.Args[0]).(*ssa.Call); ok && calleeIs(&c.Call, "(commit.Chunk).OfBitmap") {
-					if fr, ok := loadedField(c.Call.Args[1]); ok && fr.Field == "index" {
-						andOK, andIns = true, ins
-					}
-				}
-			}
-		})
-		ok := orOK && andOK && zeroed && canReach(orIns, andIns)
+			})
+		}
+		ok := orOK && andOK && zeroed && orIns.Parent() == andIns.Parent() && zeroIns.Parent() == orIns.Parent() && canReach(orIns, andIns) && canReach(zeroIns, orIns)
+		if ok {
+			acc, _, _ := callCommon(andIns)
+			ok = len(acc.Args) >= 2 && scratch != nil && (sameExpr(acc.Args[1], scratch) || isLoadOf(acc.Args[1], scratch))
+		}
 		h.Check(ok, "(*column.Txn).WithUnion/op", r.P.Pos(fn.Pos()), "scratch zeroed per block, Or of every column, then selection And scratch", "WithUnion does not compute selection ∧ (c1 ∨ c2 ∨ …) per block with a scratch bitmap that is reset for every block")
 	}
 	// value filters clear on missing / wrong kind
@@ -181,13 +144,136 @@ func ruleFilterOps(r *Report) {
 		if fn == nil {
 			continue
 		}
-		clears := callsWhere(fn, func(_ ssa.Instruction, c2 *ssa.CallCommon) bool {
-			return methodOn(c2, "github.com/kelindar/bitmap", "Bitmap", "Clear")
-		})
-		rr := callsTo(fn, false, "(*column.Txn).rangeRead")
-		ok := len(clears) == 1 && len(rr) == 1 && !canReach(clears[0], rr[0])
+		isClear := func(ins ssa.Instruction) bool {
+			c2, _, _ := callCommon(ins)
+			if c2 == nil || !methodOn(c2, "github.com/kelindar/bitmap", "Bitmap", "Clear") {
+				return false
+			}
+			fr, ok := fieldOf(c2.Args[0])
+			return ok && fr.Struct == "column.Txn" && fr.Field == "index"
+		}
+		isScan := func(ins ssa.Instruction) bool {
+			c2, _, isGo := callCommon(ins)
+			return c2 != nil && !isGo && calleeIs(c2, "(*column.Txn).rangeRead")
+		}
+		clears := callsWhereDeep(fn, func(ins ssa.Instruction, _ *ssa.CallCommon) bool { return isClear(ins) })
+		rr := callsToDeep(fn, false, "(*column.Txn).rangeRead")
+		ok := len(clears) >= 1 && len(rr) == 1
+		for _, c := range clears {
+			if ok && canReach(c.Site, rr[0].Site) {
+				ok = false // the scan must not follow the clear
+			}
+		}
+		if ok {
+			// every exit passes the scan or the clear, and the scan only runs for a column that was found
+			every, _ := mustPassToReturn(fn.Blocks[0], 0, func(ins ssa.Instruction) bool { return isClear(ins) || isScan(ins) })
+			found := edgeGuarded(rr[0].Site.Block(), func(c ssa.Value) (bool, bool) {
+				if cl, ok := extractOf(c, 1); ok && calleeIs(&cl.Call, "(*column.Txn).columnAt") {
+					return true, true
+				}
+				return false, false
+			})
+			ok = every && found
+		}
 		h.Check(ok, name+"/missing", r.P.Pos(fn.Pos()), "missing or wrong-kind column ⇒ empty selection, no scan", "a missing (or wrong-kind) column does not empty the selection before returning")
 	}
+}
+
+// isLoadOf: v is a load through address addr (a variable that is passed by address as a method
+// receiver and by value as an argument).
+func isLoadOf(v, addr ssa.Value) bool {
+	ld, ok := strip(v).(*ssa.UnOp)
+	if !ok || ld.Op != token.MUL {
+		return false
+	}
+	if ld.X == addr {
+		return true
+	}
+	// the same captured cell seen from a closure and from its creator
+	return sameExpr(ld.X, addr)
+}
+
+// unionFirstOK: Union intersects for the first column of a fresh selection and joins otherwise.
+// The decision variable is found by structure, not by name: a boolean cell captured by the
+// per-block closure, whose value p selects And (and ¬p selects Or); it is initialised — from
+// Txn.setup read before initialize() — to p exactly when the selection was not set up, and set to
+// ¬p at the end of every iteration of the column loop.
+func unionFirstOK(fn, closure *ssa.Function) bool {
+	for i, fv := range closure.FreeVars {
+		pt, ok := fv.Type().(*types.Pointer)
+		if !ok {
+			continue
+		}
+		if b, ok := pt.Elem().Underlying().(*types.Basic); !ok || b.Kind() != types.Bool {
+			continue
+		}
+		isLeaf := func(c ssa.Value) bool {
+			ld, ok := c.(*ssa.UnOp)
+			return ok && ld.Op == token.MUL && ld.X == ssa.Value(fv)
+		}
+		for _, p := range []bool{true, false} {
+			ok := true
+			n := 0
+			for _, o := range callsWhere(closure, func(_ ssa.Instruction, c2 *ssa.CallCommon) bool {
+				return methodOn(c2, "github.com/kelindar/bitmap", "Bitmap", "And", "Or")
+			}) {
+				n++
+				oc, _, _ := callCommon(o)
+				want := p
+				if baseName(oc.StaticCallee()) == "Or" {
+					want = !p
+				}
+				if !edgeGuarded(o.Block(), func(c ssa.Value) (bool, bool) { return isLeaf(c), want }) {
+					ok = false
+				}
+			}
+			if !ok || n != 2 {
+				continue
+			}
+			// the cell in Union
+			var cell *ssa.Alloc
+			allInstrs(fn, func(ins ssa.Instruction) {
+				if mc, isMk := ins.(*ssa.MakeClosure); isMk && mc.Fn == ssa.Value(closure) {
+					cell, _ = mc.Bindings[i].(*ssa.Alloc)
+				}
+			})
+			if cell == nil {
+				continue
+			}
+			inits := callsTo(fn, false, "(*column.Txn).initialize")
+			initOK, resetOK, other := false, false, false
+			for _, ref := range *cell.Referrers() {
+				st, isSt := ref.(*ssa.Store)
+				if !isSt || st.Addr != ssa.Value(cell) {
+					continue
+				}
+				inLoop := reachAvoiding(st.Block(), st.Block(), nil, nil)
+				// fresh := !setup (p) or setup (¬p), the flag read before initialize()
+				v := norm(st.Val)
+				neg := false
+				if inner, isN := isNot(v); isN {
+					v, neg = norm(inner), true
+				}
+				if ld, isLd := v.(*ssa.UnOp); isLd && ld.Op == token.MUL && !inLoop {
+					if fr, isF := fieldOf(ld.X); isF && fr.Struct == "column.Txn" && fr.Field == "setup" && neg == p {
+						if len(inits) == 1 && precedes(ld, inits[0]) {
+							initOK = true
+							continue
+						}
+					}
+				}
+				if c, isC := st.Val.(*ssa.Const); isC && c.Value != nil && (c.Value.String() == "true") == !p && inLoop {
+					resetOK = true
+					continue
+				}
+				other = true
+			}
+			if initOK && resetOK && !other {
+				return true
+			}
+		}
+	}
+	return false
 }
 
 // ---------------------------------------------------------------------------------------------
@@ -206,6 +292,41 @@ func isStorageFill(v ssa.Value) bool {
 		return true
 	}
 	return false
+}
+
+// isStorageData: v is the value array of a column block (second result of chunkAt, or the data
+// field of a chunks element).
+func isStorageData(v ssa.Value) bool {
+	v = norm(v)
+	if ex, ok := v.(*ssa.Extract); ok && ex.Index == 1 {
+		if c, ok := ex.Tuple.(*ssa.Call); ok && calleeIs(&c.Call, "(column.chunks[T]).chunkAt") {
+			return true
+		}
+	}
+	if fr, ok := loadedField(v); ok && strings.HasPrefix(fr.Struct, "struct{fill ") && fr.Field == "data" {
+		return true
+	}
+	return false
+}
+
+// lessThan brings a strict or non-strict integer comparison into the form x < y, possibly
+// negated: a<b, b>a, !(a>=b), !(b<=a).
+func lessThan(c ssa.Value) (x, y ssa.Value, neg, ok bool) {
+	bo, isB := c.(*ssa.BinOp)
+	if !isB {
+		return nil, nil, false, false
+	}
+	switch bo.Op {
+	case token.LSS:
+		return bo.X, bo.Y, false, true
+	case token.GTR:
+		return bo.Y, bo.X, false, true
+	case token.GEQ:
+		return bo.X, bo.Y, true, true
+	case token.LEQ:
+		return bo.Y, bo.X, true, true
+	}
+	return nil, nil, false, false
 }
 
 func rulePresence(r *Report) {
@@ -405,10 +526,8 @@ func ruleGuardedReads(r *Report) {
 		// value element reads: IndexAddr on a `data` field of a chunks element
 		var reads []*ssa.IndexAddr
 		allInstrs(fn, func(ins ssa.Instruction) {
-			if ia, ok := ins.(*ssa.IndexAddr); ok {
-				if fr, ok := loadedField(ia.X); ok && strings.HasPrefix(fr.Struct, "struct{fill ") && fr.Field == "data" {
-					reads = append(reads, ia)
-				}
+			if ia, ok := ins.(*ssa.IndexAddr); ok && isStorageData(ia.X) {
+				reads = append(reads, ia)
 			}
 		})
 		ok := len(reads) >= 1
@@ -424,13 +543,14 @@ func ruleGuardedReads(r *Report) {
 				return true, true
 			})
 			bounds := edgeGuarded(ia.Block(), func(c ssa.Value) (bool, bool) {
-				bo, isB := c.(*ssa.BinOp)
-				if !isB || bo.Op != token.LSS {
+				// block < len(chunks), in any spelling
+				_, y, neg, isCmp := lessThan(c)
+				if !isCmp {
 					return false, false
 				}
-				if ln, isL := bo.Y.(*ssa.Call); isL {
+				if ln, isL := strip(y).(*ssa.Call); isL {
 					if b, isBI := ln.Call.Value.(*ssa.Builtin); isBI && b.Name() == "len" {
-						return true, true
+						return true, !neg
 					}
 				}
 				return false, false
@@ -459,8 +579,8 @@ func ruleGuardedReads(r *Report) {
 		if strings.HasPrefix(n, "(column.Row).Set") || strings.HasPrefix(n, "(column.Row).Merge") {
 			continue
 		}
-		// any context reading a `data` field that is not below a guarded loader
-		prev := L.ReachFrom(rc)
+		// any context reading a `data` field that is reached without passing a guarded loader
+		prev := L.ReachFromAvoiding(rc, func(c *LCtx) bool { return guarded[fnName(c.Fn)] })
 		bad := ""
 		for ins, ss := range L.At {
 			fa, ok := ins.(*ssa.FieldAddr)
@@ -903,22 +1023,93 @@ func ruleCountAndCache(r *Report) {
 		h.Check(ok, "(*column.Txn).DeleteAt", r.P.Pos(fn.Pos()), "deleteAt(idx) ⇐ idx ∈ selection", "DeleteAt queues a delete for an offset that is not in the transaction's selection (not a live row)")
 	}
 	if fn := r.Anchor("(*column.columnEnum).FilterString"); fn != nil {
-		ok := false
-		allInstrs(fn, func(ins ssa.Instruction) {
-			st, isSt := ins.(*ssa.Store)
-			if !isSt {
+		h.Check(enumCacheStartsImpossible(fn), "(*column.columnEnum).FilterString/cache", r.P.Pos(fn.Pos()), "cache starts at location MaxUint32", "the enum filter's cache does not start with an impossible location: the first row whose string has that location gets the cached (false) verdict without the predicate being evaluated")
+	}
+}
+
+// enumCacheStartsImpossible: inside the filter callback the row's location (an element of the
+// block's value array) is compared with a remembered location kept in a captured variable (a local
+// or a field of a local struct); every store to that variable outside the callback stores
+// MaxUint32, and there is one.
+func enumCacheStartsImpossible(fn *ssa.Function) bool {
+	found, ok := false, true
+	for _, cl := range fn.AnonFuncs {
+		allInstrs(cl, func(ins ssa.Instruction) {
+			bo, isB := ins.(*ssa.BinOp)
+			if !isB || (bo.Op != token.EQL && bo.Op != token.NEQ) {
 				return
 			}
-			if fa, isFA := st.Addr.(*ssa.FieldAddr); isFA {
-				if stt, isS := fa.X.Type().Underlying().(*types.Pointer).Elem().Underlying().(*types.Struct); isS && stt.Field(fa.Field).Name() == "index" {
-					if c, isC := constInt(st.Val); isC && c == 0xffffffff {
-						ok = true
+			for _, pair := range [][2]ssa.Value{{bo.X, bo.Y}, {bo.Y, bo.X}} {
+				// one side: locs[idx]
+				ld, isLd := norm(pair[0]).(*ssa.UnOp)
+				if !isLd || ld.Op != token.MUL {
+					continue
+				}
+				ia, isIA := ld.X.(*ssa.IndexAddr)
+				if !isIA || !isStorageData(ia.X) {
+					continue
+				}
+				// other side: load of the remembered location
+				cld, isLd := pair[1].(*ssa.UnOp)
+				if !isLd || cld.Op != token.MUL {
+					continue
+				}
+				var fv *ssa.FreeVar
+				field := -1
+				switch a := cld.X.(type) {
+				case *ssa.FreeVar:
+					fv = a
+				case *ssa.FieldAddr:
+					if f, isFV := a.X.(*ssa.FreeVar); isFV {
+						fv, field = f, a.Field
 					}
+				}
+				if fv == nil {
+					continue
+				}
+				// the captured cell in the creating function
+				var cell ssa.Value
+				allInstrs(fn, func(i2 ssa.Instruction) {
+					if mc, isMk := i2.(*ssa.MakeClosure); isMk && mc.Fn == ssa.Value(cl) {
+						for k, f := range cl.FreeVars {
+							if f == fv {
+								cell = mc.Bindings[k]
+							}
+						}
+					}
+				})
+				if cell == nil {
+					continue
+				}
+				n := 0
+				allInstrs(fn, func(i2 ssa.Instruction) {
+					st, isSt := i2.(*ssa.Store)
+					if !isSt {
+						return
+					}
+					hit := false
+					if field < 0 {
+						hit = st.Addr == cell
+					} else if fa, isFA := st.Addr.(*ssa.FieldAddr); isFA && fa.X == cell && fa.Field == field {
+						hit = true
+					}
+					if !hit {
+						return
+					}
+					n++
+					if c, isC := constInt(st.Val); !isC || c != 0xffffffff {
+						ok = false
+					}
+				})
+				if n >= 1 {
+					found = true
+				} else {
+					ok = false
 				}
 			}
 		})
-		h.Check(ok, "(*column.columnEnum).FilterString/cache", r.P.Pos(fn.Pos()), "cache starts at location MaxUint32", "the enum filter's cache does not start with an impossible location: the first row whose string has that location gets the cached (false) verdict without the predicate being evaluated")
 	}
+	return found && ok
 }
 
 func ruleKeyWiring(r *Report) {
